@@ -1,0 +1,30 @@
+#pragma once
+
+// Verification seams. Compiled only with -DCONCEPTCORE_VERIF.
+// With the guard off this header is empty and nothing refers to it.
+// With the guard on, every seam is inert until a simulator installs a value.
+
+#ifdef CONCEPTCORE_VERIF
+
+#include <cstdint>
+#include <functional>
+
+namespace ccl::verif {
+
+struct Hooks {
+  //! If set, candidate entity identifiers are taken from here instead of std::random_device
+  std::function<uint32_t()> nextUID{};
+  //! If non-zero, lazy set element caches are cleared on reaching this size (shipped value: 100)
+  uint32_t cacheLimit{ 0 };
+  //! If non-zero, replaces the interpreter iteration limit (shipped value: 100000)
+  int32_t maxIterations{ 0 };
+};
+
+inline Hooks& GetHooks() noexcept {
+  static Hooks instance{};
+  return instance;
+}
+
+} // namespace ccl::verif
+
+#endif // CONCEPTCORE_VERIF
